@@ -270,7 +270,7 @@ fn run(cfg: &RunCfg) -> Report {
         });
         rep.class("marathon-of-66000-walks");
     }
-    let n = if small { 3 } else { cfg.n(cfg.pick(120_000, 3_000_000)) / ns };
+    let n = if small { 3 } else { cfg.n(cfg.pick(120_000, 6_000_000)) / ns };
     for _ in 0..n {
         let nv = 1 + rng.below(16) as usize;
         let c = gen_cfg(&mut rng, nv, None);
